@@ -29,6 +29,10 @@ ASSUMPTIONS = ["copy() is specified as it behaves (buffered deletes hide the key
 BUDGET_S = {"quick": 60, "thorough": 600}
 
 
+class BoomBase(BaseException):
+    """not an Exception (as KeyboardInterrupt, SystemExit, asyncio.CancelledError are not)"""
+
+
 class Boom(Exception):
     pass
 
@@ -82,7 +86,7 @@ def run_case(case):
         with sdb.batch_commit(do_deletes=case["dd"]):
             for i, op in enumerate(case["script"]):
                 if raise_at is not None and i == raise_at:
-                    raise Boom()
+                    raise (BoomBase() if len(case["script"]) % 2 else Boom())
                 kind = op[0]
                 k = bytes.fromhex(op[1]) if len(op) > 1 else None
                 if kind == "set":
@@ -118,13 +122,14 @@ def run_case(case):
                     res.fail("wrapped-written-while-open", "the wrapped database changed while the batch was open (after %r)" % (op,))
                 res.emit("sdb.wrapped", fmt(wrapped))
             if raise_at is not None:
-                raise Boom()
+                raise (BoomBase() if len(case["script"]) % 2 else Boom())
             if ex[0] == "failwrite":
                 wrapped.fail_after = ex[1]
         outcome = "committed"
         res.emit("sdb.commit %d %s" % (1 if case["dd"] else 0, ex[1] if ex[0] == "failwrite" else "none"), "ok")
-    except Boom:
+    except (Boom, BoomBase) as e:
         outcome = "aborted"
+        res.tags.add("abort-by:" + type(e).__name__)
         res.emit("sdb.abort", "ok")
     except hexlib.WriteFailed:
         outcome = "write-failed"
